@@ -18,6 +18,8 @@ type diffWorker struct {
 	rig   *cpuRig
 	cells map[string]int64
 	extra map[string]int64
+	// skipMem: leave the O(writes) memory comparison out of this step (long runs compare at intervals)
+	skipMem bool
 }
 
 func newDiffWorker(r *vf.Run) *diffWorker {
@@ -95,6 +97,9 @@ func (w *diffWorker) compareSides(op byte, pre ref.State, rp, ra stepRes, mp, ma
 	if w.rig.prim.WDM != w.rig.alt.WDM {
 		w.r.Fail("wdm", fmt.Sprintf("%s %s: WDM %02x vs %02x", where, name, w.rig.prim.WDM, w.rig.alt.WDM), detail())
 		return false
+	}
+	if w.skipMem {
+		return true
 	}
 	if a, same := mem.SameWrites(mp, ma); !same {
 		w.r.Fail("memory:"+ref.MnemNames[ref.Table[op].M]+" "+ref.ModeNames[ref.Table[op].Mode], fmt.Sprintf("%s %s: memory differs at $%06x: primary {%s} alternative {%s} | pre={%v}", where, name, a, fmtWrites(mp.Wr), fmtWrites(ma.Wr), pre), detail())
@@ -187,7 +192,7 @@ func (w *diffWorker) program(s0 ref.State, base *mem.Image, stale bool, g *vf.Rn
 }
 
 func C02(r *vf.Run) {
-	r.Rule = "pure differential lockstep of cpu65c816 vs cpualt, same lazily-random image and raw register file on both sides: (1) every opcode x (E,M,X,D) x boundary-directed valuations incl. stale register copies; (2) random instruction streams up to 512 steps in native and emulation mode, crossing XCE in both directions and STP, with IRQ/NMI requests raised on both sides at random steps. After every step registers, flags, E, Stopped, Step() results, AllCycles, WDM and memory (union of written addresses) are compared. A cell is (opcode, E, M, X, D, DL!=0)"
+	r.Rule = "pure differential lockstep of cpu65c816 vs cpualt, same lazily-random image and raw register file on both sides: (1) every opcode x (E,M,X,D) x boundary-directed valuations incl. stale register copies; (2) random instruction streams up to 512 steps in native and emulation mode, crossing XCE in both directions and STP, with IRQ/NMI requests raised on both sides at random steps; (3) long runs of 65,536+ consecutive steps on one instruction or tiny loop (full-bank MVN/MVP, branches and jumps to themselves, counting loops taking a register all the way round, a NOP slide wrapping PC in its bank, a push loop taking S round bank 0). After every step registers, flags, E, Stopped, Step() results, AllCycles, WDM and memory (union of written addresses) are compared. A cell is (opcode, E, M, X, D, DL!=0)"
 	r.Assume = []string{"whole 16 MiB mapped on both sides", "divergence visible only in a non-authoritative register copy is counted (raw_copy_divergences), not judged, until it surfaces architecturally", "interrupt requests (TriggerIRQ, NMI) are raised identically on both sides during program lockstep"}
 	ncpu := runtime.NumCPU()
 	if r.Phase("single-step") {
@@ -243,9 +248,24 @@ func C02(r *vf.Run) {
 			r.AddExtra("program_steps", local)
 		})
 	}
+	if r.Phase("long-runs") {
+		per := r.N(1, 12)
+		r.Parallel(ncpu, len(longRunKinds)*per, func(wi, ci int) {
+			w := newDiffWorker(r)
+			defer w.flush()
+			g := r.Rand("long").Fork(uint64(ci))
+			kind := longRunKinds[ci%len(longRunKinds)]
+			s, img, steps := longRunCase(g, kind)
+			w.longRun(kind, s, img, steps, g)
+		})
+	}
 	// the same lockstep in a fresh process in which cpualt is used (and steps) first
 	runChild(r, "cpualt-first", "VERIF_ALT_FIRST=1")
 	if r.OnlyPhase == "" {
+		for _, k := range longRunKinds {
+			r.Require("long:" + k)
+		}
+		r.Require("long:mvn-full:reached-stp")
 		for op := 0; op < 256; op++ {
 			r.Require(fmt.Sprintf("op%02x:e1:m1:x1:d0:dl0", op))
 			r.Require(fmt.Sprintf("op%02x:e0:m0:x0:d1:dl1", op))
